@@ -73,8 +73,9 @@ impl Run {
         let u = sc.users.clone();
         let nu = sc.native_users.clone();
         // every third deployment works with 18-decimals-sized amounts
-        let k: u128 = [1, 1_000_000_000, 1_000_000_000_000_000_000][(sc.cfg.salt / 7 % 3) as usize];
-        let big = 1_000_000u128.max(sc.cfg.min_stake.min(1_000_000_000_000_000_000) * 10) * k + (k > 1) as u128 * 12_345;
+        let base = 1_000_000u128.max(sc.cfg.min_stake.min(1_000_000_000_000_000_000_000_000) * 10);
+        let k: u128 = if base <= 10_000_000 { [1, 1_000_000_000, 1_000_000_000_000_000_000][(sc.cfg.salt / 7 % 3) as usize] } else { 1 };
+        let big = base * k + (k > 1) as u128 * 12_345;
         self.step(sc.resume(0, 0, 0));
         for x in &u {
             self.step(Op::BankMint { addr: x.clone(), denom: sc.s.clone(), amount: big * 100 });
@@ -228,8 +229,9 @@ impl Run {
         let sc = self.sc.clone();
         let u = sc.users.clone();
         // every third deployment works with 18-decimals-sized amounts
-        let k: u128 = [1, 1_000_000_000, 1_000_000_000_000_000_000][(sc.cfg.salt / 7 % 3) as usize];
-        let big = 1_000_000u128.max(sc.cfg.min_stake.min(1_000_000_000_000_000_000) * 10) * k + (k > 1) as u128 * 12_345;
+        let base = 1_000_000u128.max(sc.cfg.min_stake.min(1_000_000_000_000_000_000_000_000) * 10);
+        let k: u128 = if base <= 10_000_000 { [1, 1_000_000_000, 1_000_000_000_000_000_000][(sc.cfg.salt / 7 % 3) as usize] } else { 1 };
+        let big = base * k + (k > 1) as u128 * 12_345;
         self.step(sc.resume(0, 0, 0));
         for x in u.iter().take(3) {
             self.step(Op::BankMint { addr: x.clone(), denom: sc.s.clone(), amount: big * 3 });
